@@ -22,8 +22,14 @@ THEOREMS = [
     'Sbepp.Properties.C13.valid_for_vector_valid_here',
     'Sbepp.Properties.C13.erase_to_end_valid',
     'Sbepp.Properties.C13.ops_refine',
+    'Sbepp.Properties.C13.ops_frame',
     'Sbepp.Properties.C13.bounded_by_buffer',
+    'Sbepp.Properties.C13.push_back_bounded',
     'Sbepp.Rt.DynArray.getN_putN',
+    'Sbepp.Rt.DynArray.getN_lt',
+    'Sbepp.Rt.DynArray.wrapLen_eq_wrap',
+    'Sbepp.Spec.Vec.apply_post',
+    'Sbepp.Spec.Vec.length_apply',
 ]
 
 SIGMA = [0x61, 0x80, 0xff]
